@@ -1054,6 +1054,12 @@ func (ds *AnySource) ConfigurePulseLengths(nsamp, npre int) error {
 		nsamp < npre+1 { // require at least one post trigger sample
 		return fmt.Errorf("ConfigurePulseLengths nsamp %v, npre %v are invalid", nsamp, npre)
 	}
+	// Check every channel before changing any, so that a rejected request is not applied to some channels only.
+	for _, dsp := range ds.processors {
+		if !dsp.pulseLengthsValid(nsamp, npre) {
+			return fmt.Errorf("ConfigurePulseLengths nsamp %v, npre %v are invalid for the edge-multi trigger of channel %d", nsamp, npre, dsp.channelIndex)
+		}
+	}
 	for _, dsp := range ds.processors {
 		if err := dsp.ConfigurePulseLengths(nsamp, npre); err != nil {
 			return err
